@@ -529,10 +529,17 @@ pub fn derived_text(g: &G, rng: &mut Rng) -> String {
 fn mk(text: String, rng: &mut Rng, g: G) -> Case {
     // two thirds of the texts are derived from the grammar itself
     let text = if rng.chance(2, 3) { derived_text(&g, rng) } else { text };
+    // a third of the cases run under other metrics and with line structure in the text
+    let (le, tab, text) = if rng.chance(1, 3) {
+        let le = *rng.pick(LINE_ENDINGS);
+        let brk = match le { LineEnding::Lf => "\n", LineEnding::Cr => "\r", LineEnding::CrLf => "\r\n" };
+        let text = text.replacen(' ', brk, 1).replacen(' ', "\t", 1);
+        (le, 1 + rng.below(8) as u8, text)
+    } else { (LineEnding::Lf, 4, text) };
     Case {
         text,
-        le: LineEnding::Lf,
-        tab: 4,
+        le,
+        tab,
         sc: 1 + 2 * rng.below(4),
         filter: if rng.chance(3, 4) { Some(1) } else { None },
         sink: rng.chance(1, 2),
